@@ -15,7 +15,7 @@ pub const RULE: &str = "case = (DNA count matrix of width 1..40 with arbitrary c
 
 pub const REQUIRED: &[&str] = &[
     "type.count", "type.frequency", "type.weight", "type.scoring", "check.involution", "check.definition",
-    "check.commutes", "check.involution_other_base", "class.background_with_null_complementary_pair", "class.position_without_observations", "class.palindromic_with_asymmetric_wildcard", "alphabet.user_defined", "class.nan_frequencies", "check.mirrored_scores_with_nan_cells", "check.hand_built_frequency_rows", "check.mirrored_scores", "check.mirrored_score_position", "score_position.no_lookahead_rows", "score_position.too_few_lookahead_rows", "score_position.window_crosses_column", "class.finite_wildcard_column", "class.neg_inf_cells",
+    "check.commutes", "check.involution_other_base", "class.background_with_null_complementary_pair", "class.position_without_observations", "class.palindromic_with_asymmetric_wildcard", "class.all_zero_position", "alphabet.user_defined_12_complementable", "alphabet.user_defined", "class.nan_frequencies", "check.mirrored_scores_with_nan_cells", "check.hand_built_frequency_rows", "check.mirrored_scores", "check.mirrored_score_position", "score_position.no_lookahead_rows", "score_position.too_few_lookahead_rows", "score_position.window_crosses_column", "class.finite_wildcard_column", "class.neg_inf_cells",
     "class.sequence_with_wildcards", "class.width=1", "class.background_with_wildcard_frequency",
 ];
 
@@ -108,20 +108,84 @@ impl lightmotif::abc::Alphabet for Acgt {
     }
 }
 
-const COMP_ACGT: [usize; 5] = [3, 2, 1, 0, 4];
+// --- a second one with 12 symbols (more than 8 columns): ten letters paired two by two, one
+// self-complementary letter, wildcard
+
+#[derive(Clone, Copy, Debug, PartialEq, Eq)]
+pub struct P12(pub u8);
+
+impl Default for P12 {
+    fn default() -> Self {
+        P12(11)
+    }
+}
+
+impl lightmotif::abc::Symbol for P12 {
+    fn as_index(&self) -> usize {
+        self.0 as usize
+    }
+    fn as_ascii(&self) -> u8 {
+        b"ABCDEFGHIJKX"[self.0 as usize]
+    }
+    fn from_ascii(c: u8) -> Result<Self, lightmotif::err::InvalidSymbol> {
+        match b"ABCDEFGHIJKX".iter().position(|&x| x == c) {
+            Some(i) => Ok(P12(i as u8)),
+            None => Err(lightmotif::err::InvalidSymbol(c as char)),
+        }
+    }
+}
+
+impl lightmotif::abc::ComplementableSymbol for P12 {
+    fn complement(&self) -> Self {
+        match self.0 {
+            x if x < 10 => P12(x ^ 1),
+            x => P12(x),
+        }
+    }
+}
+
+static P12_ALL: [P12; 12] = [P12(0), P12(1), P12(2), P12(3), P12(4), P12(5), P12(6), P12(7), P12(8), P12(9), P12(10), P12(11)];
+
+#[derive(Clone, Copy, Debug, Default, PartialEq, Eq)]
+pub struct Pairs12;
+
+impl lightmotif::abc::Alphabet for Pairs12 {
+    type Symbol = P12;
+    type K = lightmotif::num::U12;
+    fn symbols() -> &'static [P12] {
+        &P12_ALL
+    }
+    fn as_str() -> &'static str {
+        "ABCDEFGHIJKX"
+    }
+}
 
 /// The four reverse complements over the user-defined alphabet, against the definition. The first
 /// case of a process runs this BEFORE anything over Dna is reverse-complemented, later cases after.
-fn custom_alphabet_case(case: u64, rng: &mut Rng, rep: &mut Report) -> bool {
+fn custom_alphabet_case<A: lightmotif::abc::ComplementableAlphabet + PartialEq>(case: u64, rng: &mut Rng, rep: &mut Report, name: &str) -> bool
+where
+    A::K: PartialEq,
+{
+    use lightmotif::abc::Symbol;
+    use lightmotif::num::Unsigned;
+    let kk = <A::K as Unsigned>::USIZE;
+    // the permutation the alphabet itself defines
+    let comp: Vec<usize> = {
+        let mut c = vec![0usize; kk];
+        for s in A::symbols() {
+            c[s.as_index()] = A::complement(*s).as_index();
+        }
+        c
+    };
     let w = rng.range(1, 12);
-    let mut dm = DenseMatrix::<u32, lightmotif::num::U5>::new(w);
+    let mut dm = DenseMatrix::<u32, A::K>::new(w);
     for i in 0..w {
-        for j in 0..5 {
+        for j in 0..kk {
             dm[i][j] = rng.below(50) as u32 + if j == 0 { 1 } else { 0 };
         }
     }
     let res = guard(|| {
-        let cm = CountMatrix::<Acgt>::new(dm.clone()).unwrap();
+        let cm = CountMatrix::<A>::new(dm.clone()).unwrap();
         let freq = cm.to_freq(0.25);
         let weight = freq.to_weight(None);
         let scoring = freq.to_scoring(None);
@@ -129,20 +193,20 @@ fn custom_alphabet_case(case: u64, rng: &mut Rng, rep: &mut Report) -> bool {
         let back = rc.reverse_complement() == cm && rs.reverse_complement() == scoring;
         (cm, freq, weight, scoring, rc, rf, rw, rs, back)
     });
-    rep.cover("alphabet.user_defined");
+    rep.cover(name);
     match res {
         Err(p) => {
-            rep.violate(&format!("c10.panic:{}", panic_site(&p)), case, format!("panic with a user-defined ACGTN alphabet: {}", p), J::obj().set("width", J::u(w)));
+            rep.violate(&format!("c10.panic:{}", panic_site(&p)), case, format!("panic with a user-defined alphabet ({}): {}", A::as_str(), p), J::obj().set("width", J::u(w)));
             false
         }
         Ok((cm, freq, weight, scoring, rc, rf, rw, rs, back)) => {
             if !back {
-                rep.violate("c10.involution", case, "user-defined ACGTN alphabet: rc(rc(x)) != x".into(), J::obj().set("width", J::u(w)));
+                rep.violate("c10.involution", case, format!("user-defined alphabet {}: rc(rc(x)) != x", A::as_str()), J::obj().set("width", J::u(w)));
                 return false;
             }
             for i in 0..w {
-                for s in 0..5 {
-                    let j = COMP_ACGT[s];
+                for s in 0..kk {
+                    let j = comp[s];
                     let ok = rc.matrix()[i][s] == cm.matrix()[w - 1 - i][j]
                         && same_f32(rf.matrix()[i][s], freq.matrix()[w - 1 - i][j])
                         && same_f32(rw.matrix()[i][s], weight.matrix()[w - 1 - i][j])
@@ -151,7 +215,7 @@ fn custom_alphabet_case(case: u64, rng: &mut Rng, rep: &mut Report) -> bool {
                         rep.violate(
                             "c10.definition",
                             case,
-                            format!("user-defined ACGTN alphabet: count rc[{}][{}] = {}, original[{}][{}] = {} (or the frequency / weight / scoring cell differs)", i, s, rc.matrix()[i][s], w - 1 - i, j, cm.matrix()[w - 1 - i][j]),
+                            format!("user-defined alphabet {}: count rc[{}][{}] = {}, original[{}][{}] = {} (or the frequency / weight / scoring cell differs)", A::as_str(), i, s, rc.matrix()[i][s], w - 1 - i, j, cm.matrix()[w - 1 - i][j]),
                             J::obj().set("width", J::u(w)),
                         );
                         return false;
@@ -167,7 +231,10 @@ fn run_case(case: u64, rng: &mut Rng, rep: &mut Report) {
     rep.eval();
     // even shards of cases start with the user-defined alphabet, odd ones with Dna
     if case % 2 == 0 || case % 16 == 5 {
-        if !custom_alphabet_case(case, rng, rep) {
+        if !custom_alphabet_case::<Acgt>(case, rng, rep, "alphabet.user_defined") {
+            return;
+        }
+        if case % 4 == 0 && !custom_alphabet_case::<Pairs12>(case, rng, rep, "alphabet.user_defined_12_complementable") {
             return;
         }
     }
@@ -443,6 +510,16 @@ fn run_case(case: u64, rng: &mut Rng, rep: &mut Report) {
                 r[4] = -0.5 - i as f32;
             }
             rep.cover("class.palindromic_with_asymmetric_wildcard");
+        }
+        if w >= 2 && rng.chance(0.1) {
+            // a gapped or right-padded motif: positions whose five cells are exactly +0.0
+            for _ in 0..rng.range(1, 2) {
+                let i = if rng.chance(0.5) { w - 1 } else { rng.below(w) };
+                for x in rows[i].iter_mut() {
+                    *x = 0.0;
+                }
+            }
+            rep.cover("class.all_zero_position");
         }
         crate::model::scoring::<Dna>(&rows)
     };
